@@ -427,7 +427,9 @@ class C18(core.PropertyCheck):
                 doc[k] = self.gen_field(rng, cat, k)
         if rng.random() < 0.5:
             ks = rng.sample(self.RKEYS, rng.randint(1, 3))
-            doc["replacement"] = {k: f"{k.upper()}{depth_tag}" for k in ks}
+            # values may be empty (a child switches a parent's text off) or look false in other ways: the child's own value wins
+            # whatever it is
+            doc["replacement"] = {k: (f"{k.upper()}{depth_tag}" if rng.random() < 0.8 else rng.choice(["", "0", " ", "False"])) for k in ks}
         if not doc:
             doc["content"] = "only content"
         return doc
